@@ -815,7 +815,7 @@ func c09JSONEncoder(c *Ctx) {
 	// error edge
 	var errIf *ssa.If
 	eachInstr(fn, func(i ssa.Instruction) {
-		if bo, isBo := i.(*ssa.BinOp); isBo && bo.Op == token.NEQ && strings.HasSuffix(describeVal(bo.X), "jw.Error") {
+		if bo, isBo := i.(*ssa.BinOp); isBo && bo.Op == token.NEQ && isJWriterError(bo.X) {
 			errIf = trueImpliesIf(bo)
 		}
 	})
@@ -1100,4 +1100,13 @@ func c13RoundRobin(c *Ctx) {
 	})
 	c.Check(okS, "round-robin-single:lib.NewRoundRobinDecoder", rS, "len(dec) == 1 → dec[0]", "the single-decoder shortcut is missing or guarded differently", c.fnAt(outer))
 	_ = types.Typ
+}
+
+func isJWriterError(v ssa.Value) bool {
+	ld, ok := isLoad(v)
+	if !ok {
+		return false
+	}
+	fa, ok := ld.X.(*ssa.FieldAddr)
+	return ok && isNamedType(fa.X.Type(), "github.com/mailru/easyjson/jwriter", "Writer") && fieldName(fa.X.Type(), fa.Field) == "Error"
 }
